@@ -153,7 +153,7 @@ def rule_selectable(ctx: Ctx) -> RuleResult:
 
 def rule_frame_repair(ctx: Ctx) -> RuleResult:
     p = ctx.p
-    rr = RuleResult("WRITER", "C08.3", "Frame: removing the focused header / footer moves the focus to 'body'", floor=2)
+    rr = RuleResult("WRITER", "C08.3", "Frame: removing the focused header / footer moves the focus to 'body'; every writer of focus_part checks that the part exists", floor=6)
     cls = p.cls("urwid.widget.frame.Frame")
     for part in ("header", "footer"):
         st = _setter(p, "urwid.widget.frame.Frame", part).setter
@@ -177,6 +177,25 @@ def rule_frame_repair(ctx: Ctx) -> RuleResult:
                 rr.add(finding("WRITER", st, r.stmt, f"the focus repair in the {part} setter is guarded by `{txt}`: it does not test that the focused part is {part!r}, so removing the focused {part} leaves focus_part pointing at nothing", construct=f"{part} setter repairs under the wrong part test"))
             if f"{prm} is None" not in txt and f"not {prm}" not in txt and f"{prm} is None" not in ast.unparse(st.node):
                 rr.add(finding("WRITER", st, r.stmt, f"the focus repair in the {part} setter does not test that the new {part} is None", construct=f"{part} setter repair without None test"))
+    # every writer of focus_part that can store 'header' / 'footer' checks that the part exists: either a raising
+    # `... is None` test dominates the store (focus_position setter) or every path from the store to the end of the
+    # function passes an `... is None` test that falls back (constructor)
+    for fi in p.all_class_functions(cls):
+        if fi.cls is not cls:
+            continue
+        cfg = None
+        for n in fi.own_nodes():
+            if not (isinstance(n, ast.Assign) and any(isinstance(t, ast.Attribute) and t.attr == "focus_part" and isinstance(t.value, ast.Name) and t.value.id == fi.self_name for t in n.targets)):
+                continue
+            if isinstance(n.value, ast.Constant) and n.value.value == "body":
+                continue
+            cfg = cfg or cfg_of(fi)
+            nodes = cfg.stmt_nodes(n)
+            none_tests = [t for t in cfg.nodes if t.kind == "test" and any(isinstance(c, ast.Compare) and isinstance(c.ops[0], (ast.Is, ast.IsNot)) and isinstance(c.comparators[0], ast.Constant) and c.comparators[0].value is None for c in ast.walk(t.ast))]
+            ok = bool(nodes) and all(cfg.dominated(x, none_tests) or cfg.must_pass(x, none_tests, ends=[cfg.exit], labels=("T", "F", "n")) for x in nodes)
+            rr.inst(f"{short(fi)}: {norm(n, 40)}", True, {"writer": short(fi), "store": norm(n, 50), "none_tests": [norm(t.ast, 70) for t in none_tests]})
+            if not ok:
+                rr.add(finding("WRITER", fi, n, f"`{norm(n, 50)}` in {fi.name}() can put the focus on the header / footer without any test that this part exists (`... is None`): focus_position then names a part that is not in contents and `focus` is None", construct=f"{fi.name}: focus_part stored without an existence test"))
     return rr
 
 
@@ -577,6 +596,7 @@ _C = "urwid/widget/columns.py"
 _G = "urwid/widget/grid_flow.py"
 _F = "urwid/widget/frame.py"
 MUTANTS = [
+    Mut("frame-ctor-focuses-absent-part", _F, "Frame.__init__", "        if (self.focus_part == \"header\" and header is None) or (self.focus_part == \"footer\" and footer is None):\n            # an absent part cannot have the focus (as when the part is removed later)\n            self.focus_part = \"body\"\n", "", "WRITER|widget.frame.Frame.__init__"),
     Mut("frame-keys-by-truthiness", "urwid/widget/frame.py", "Frame._contents_keys", "        if self._header is not None:\n            keys.append(\"header\")", "        if self._header:\n            keys.append(\"header\")", "SENTINEL|widget.frame.Frame._contents_keys"),
     Mut("walker-focus-clamp-off-by-one", "urwid/widget/listbox.py", "SimpleListWalker._modified", "if self.focus >= len(self):", "if self.focus > len(self):", "BOUND|widget.listbox.SimpleListWalker._modified"),
     Mut("twin-walker-focus-clamp-respelled", "urwid/widget/listbox.py", "SimpleListWalker._modified", "if self.focus >= len(self):", "if self.focus > len(self) - 1:", twin=True),
